@@ -206,7 +206,22 @@ def step(draw):
                       for k, v in params.items() if k != "NumberToConsider"}
             if "NumberToConsider" in draw(G.params_for(kind, n, [0.5])) if kind == "FuzzySelectedUnion" else False:
                 params["NumberToConsider"] = 1
+    if kind in IDENTITY_PARAMS and draw(st.integers(0, 5)) == 0:
+        # the parameter values under which the mapping changes nothing (the documented defaults, unit weights): a
+        # command that then hands its input back, or works on it directly, shows here
+        params = dict(params, **IDENTITY_PARAMS[kind])
+        if "Weights" in params:
+            params["Weights"] = [1] * n
     return {"cmd": kind, "picks": picks, "params": params}
+
+
+IDENTITY_PARAMS = {
+    "CvtToFuzzy": {"TrueThreshold": 1, "FalseThreshold": -1}, "CvtFromFuzzy": {"TrueThreshold": 1, "FalseThreshold": -1},
+    "Normalize": {"StartVal": 0, "EndVal": 1}, "CvtToFuzzyZScore": {"TrueThresholdZScore": 1, "FalseThresholdZScore": -1},
+    "WeightedSum": {"Weights": []}, "WeightedMean": {"Weights": []}, "FuzzyWeightedUnion": {"Weights": []},
+    "FuzzySelectedUnion": {"TruestOrFalsest": "Truest", "NumberToConsider": 1},
+    "NormalizeCurve": {"RawValues": [-8, 8], "NormalValues": [-8, 8]}, "CvtToFuzzyCurve": {"RawValues": [-1, 1], "FuzzyValues": [-1, 1]},
+}
 
 
 @st.composite
